@@ -181,6 +181,7 @@ def _run(tape, out, elfi, root):
         return wl
 
     last_wl = None
+    prev_run = [None]
     step = -1
     while step + 1 < nsteps or forced_ops:
         step += 1
@@ -200,6 +201,9 @@ def _run(tape, out, elfi, root):
             # risky order on purpose: save, extend, end the process without close, reopen, extend
             op = forced_ops.pop(0)
         force_how = None
+        same_obj = (op == 'rerun_same_object')
+        if same_obj:
+            op = 'rerun_same'
         if op == 'abandon_open':
             op, force_how = 'reopen', 'abandon_open'
         if op == 'close_open':
@@ -262,8 +266,13 @@ def _run(tape, out, elfi, root):
         if op == 'add_store':
             # a store for one more node of the stated form is added to a pool in use; it starts
             # empty while the others hold batches
+            # (on disk, remove_store leaves the node's .npy behind and a later add_store of the
+            # same name re-attaches to that file, whatever it holds; only nodes without such a
+            # left-over file are added - the statement is about stores the pool made itself)
             cands = [x for x in ['sim'] + sorted(descendants(cur_spec, 'sim'))
-                     if x not in pool.stores]
+                     if x not in pool.stores and not (
+                         on_disk and pool.path and
+                         os.path.exists(os.path.join(pool.path, x + '.npy')))]
             if not cands or not pool.has_context:
                 continue
             node_ = tape.choice('add_store_node', cands)
@@ -274,6 +283,10 @@ def _run(tape, out, elfi, root):
             out.sample['history'].append('add_store(%s)' % node_)
             abstract.append(('add_store',))
             out.probes['pool_add_store'] += 1
+            if family == 'rejection' and not forced_ops and \
+                    tape.chance('then_same_sampler_object', 1, 2):
+                # the sampler object that was used before the store was added is used again
+                forced_ops.append('rerun_same_object')
             continue
         if op == 'replace_node':
             cands = [n for n in cur_spec['sums']] + [cur_spec['disc']]
@@ -433,8 +446,22 @@ def _run(tape, out, elfi, root):
                 else:
                     out.violate('refuses-mismatch', name, which=name)
                     return
-        sp.REC.reset(None)
-        run_ = sr.SamplerRun(tape, out, cur_spec, wl, sched, model=user_model, pool=pool)
+        reuse = same_obj and prev_run[0] is not None and prev_run[0]['pool'] is pool and \
+            prev_run[0]['version'] == version and family == 'rejection' and \
+            wl['method'] == 'rejection'
+        if reuse:
+            # a second sample() on the SAME sampler object (same context, same compiled net)
+            run_ = prev_run[0]['run']
+            sched = prev_run[0]['sched']
+            run_.req_info.clear()
+            run_.consumed, run_.submitted, run_.rounds, run_.errors = [], [], [], []
+            sp.REC.reset(run_.backend)
+            elfi.set_client(run_.client)
+            out.probes['same_sampler_object_again'] += 1
+        else:
+            sp.REC.reset(None)
+            run_ = sr.SamplerRun(tape, out, cur_spec, wl, sched, model=user_model, pool=pool)
+        prev_run[0] = {'run': run_, 'pool': pool, 'version': version, 'sched': sched}
         stored_now = list(pool.stores)
         # is the CURRENT store set (removals may have changed it) of the stated form?
         from_sim = [x for x in stored_now if x == 'sim' or x in descendants(cur_spec, 'sim')]
